@@ -14,6 +14,13 @@ REPO = os.environ.get("GCVERIF_REPO", "/repo")
 NCPU = min(16, os.cpu_count() or 4)
 
 
+def out(*a):
+    try:
+        print(*a, flush=True)
+    except BrokenPipeError:
+        pass
+
+
 def load_prop(pid):
     return importlib.import_module(f"gcverif.props.{pid.lower()}")
 
@@ -210,7 +217,7 @@ def run_check(pid, tier, seed):
             json.dump({"property": pid, "tier": tier, "seed": seed, "violation": v}, open(path, "w"), indent=1)
             lines.append(f"VIOLATION property={pid} replay={path}")
     for mech, f in open_mech.items():
-        print(f"KNOWN-FINDING: property={pid} {mech}: {f.get('what', '')} "
+        out(f"KNOWN-FINDING: property={pid} {mech}: {f.get('what', '')} "
               f"[observed {known_seen.get(mech, 0)}x in this run]")
     wall = time.time() - t0
     reach_out = {k: {"hit": len(v["lines_hit"]), "total": v["lines_total"]} for k, v in sorted(reach.items())}
@@ -237,22 +244,22 @@ def run_check(pid, tier, seed):
     os.makedirs(os.path.join(HOME, "evidence"), exist_ok=True)
     json.dump(ev, open(os.path.join(HOME, "evidence", f"{pid}.json"), "w"), indent=1)
     shutil.rmtree(work, ignore_errors=True)
-    print(f"[{pid} {tier} seed={seed}] cases={counters.get('cases', 0)} evaluations={evaluations} "
+    out(f"[{pid} {tier} seed={seed}] cases={counters.get('cases', 0)} evaluations={evaluations} "
           f"distinct_nontrivial={len(nontrivial)} violations={len(new)} known={sum(known_seen.values())} "
           f"wall={wall:.1f}s")
     brief = {k: v for k, v in sorted(counters.items()) if not k.startswith("viol:")}
-    print("counters:", json.dumps(brief)[:3000])
+    out("counters:", json.dumps(brief)[:3000])
     if new:
         for mech, vs in seen_mech.items():
             v = vs[0]
-            print(f"  mechanism={mech} monitor={v['monitor']} n={len(vs)} observed={json.dumps(v['observed'])[:400]} "
+            out(f"  mechanism={mech} monitor={v['monitor']} n={len(vs)} observed={json.dumps(v['observed'])[:400]} "
                   f"expected={json.dumps(v['expected'])[:300]}")
         for ln in lines:
-            print(ln)
+            out(ln)
         return 1
     if inconclusive:
         for r in inconclusive:
-            print(f"INCONCLUSIVE property={pid} reason={r}")
+            out(f"INCONCLUSIVE property={pid} reason={r}")
         return 2
     return 0
 
@@ -271,23 +278,23 @@ def replay(pid, path):
     r = json.load(open(outp))
     shutil.rmtree(work, ignore_errors=True)
     same = [x for x in r["violations"] if x["mechanism"] == v["mechanism"]]
-    print(json.dumps({"case": v["case"], "reproduced": len(same), "all_violations": len(r["violations"]),
+    out(json.dumps({"case": v["case"], "reproduced": len(same), "all_violations": len(r["violations"]),
                       "errors": r["errors"][:2]}, indent=1)[:3000])
     if same:
-        print(json.dumps(same[0], indent=1)[:3000])
-        print(f"VIOLATION property={pid} replay={path}")
+        out(json.dumps(same[0], indent=1)[:3000])
+        out(f"VIOLATION property={pid} replay={path}")
         return 1
     return 0
 
 
 def main(argv):
     if not argv:
-        print(__doc__)
+        out(__doc__)
         return 64
     if argv[0] == "setup":
         from . import native
         m = native.prepare(sanitize=True)
-        print(json.dumps(m, indent=1))
+        out(json.dumps(m, indent=1))
         return 0 if not m.get("error") else 1
     if argv[0] == "shard":
         _, pid, tier, seed, i, n, outp = argv
